@@ -306,7 +306,8 @@ PROPS["C09"] = dict(mc=_pwm_mc(), record=True, trace="Trace_C09", shards=12,
                "matrices. Every recorded conversion of the real library (DNA and protein, scalar and per-symbol "
                "pseudocounts, uniform / dyadic / decimal backgrounds, bases 2, 4, 8, 10, 2.75, every route to log-odds, "
                "rescale, from_sequences incl. ragged input, Background::new / from_counts, FrequencyMatrix::new) is "
-               "validated by TLC against them.",
+               "validated by TLC against them; so are the same conversions through the Python bindings (normalize / "
+               "log_odds with numbers or dicts, backgrounds and bases together: py_norm events, Trace_Py).",
     level_note="Numeric accuracy is outside the technique: frequencies/weights are checked to 2^-12 (1-2 units), log-odds "
                "to 6 units of 2^-10; zeros, -inf and counts exactly. Valid decimal backgrounds rejected by the exact "
                "`sum == 1.0` test are reported as a note, not a violation (C09 only requires invalid input to be rejected). "
@@ -325,7 +326,7 @@ PROPS["C10"] = dict(mc=_pwm_mc(), record=True, trace="Trace_C10", shards=12,
                "validated by TLC.",
     level_note="Weight matrices are covered through the commutation events (no public constructor from raw cells). "
                "Grid matrices make the mirrored-score comparison exact; conversions compared to 2^-12 / 2^-10. "
-               "Python reverse_complement is covered by C17. Trusted: TLC, Json module.",
+               "Python reverse_complement is recorded here too (py_rc events, Trace_Py) and in C17. Trusted: TLC, Json module.",
     rule="impl->spec: events rc (4 per width), rc_commute, rc_score; distinct_nontrivial = distinct (matrix, sequence).",
     assumptions=["DNA only (the only complementable alphabet)"])
 
